@@ -48,7 +48,14 @@ def run(c):
         ws[2] = {"kind": "ptrace", "prog": ["spin"], "cancel_ms": 50}
         ws[3] = {"kind": "ns", "prog": ["fds", "-", "256", "43"]}
         ws[4] = {"kind": "ptrace", "prog": ["fds", "-", "256", "44"]}
-        cases.append({"id": si, "envs": 3, "noise": 8, "workloads": ws})
+        # traced runs whose handler decides by the path it is shown: a path that carries another run's tag is another run's trap event
+        for j, wi in enumerate((5, 6, 7, 8)):
+            ws[wi] = {"kind": "ptrace_paths", "prog": ["probe", "3000", "c17run-%d-%d" % (si, j)]}
+        # a long call on environment 1 and a Ping on the same environment issued while it runs (every third set: 3.5 s)
+        if si % 3 == 0:
+            ws[9] = {"kind": "container", "env": 1, "prog": ["sleep", "3500"], "_long": True}
+            ws[10] = {"kind": "ping", "env": 1, "delay_ms": 300, "prog": ["-"]}
+        cases.append({"id": si, "envs": 3, "noise": 8, "workloads": [{k: v for k, v in w.items() if not k.startswith("_")} for w in ws]})
     obs = c.run_harness(exe, cases, env=env, timeout=1700)
     for x, o in zip(cases, obs):
         if "harness_err" in o:
@@ -69,6 +76,12 @@ def run(c):
             if "cancel_ms" in w:
                 # a cancelled run: the verdict class must be the same; the tree's own output is not compared
                 pa, pb = pa[:1], pb[:1]
+            if b.get("foreign_paths") or a.get("foreign_paths"):
+                c.finding_or_violation({"kind": "independence", "what": "a tracer showed its handler a path of another run's program", "runner": "ptrace"},
+                                       {"workload": w, "alone": a, "among_others": b}, klass="foreign-path")
+            if w["kind"] == "ping" and (a["error"] or b["error"]):
+                c.finding_or_violation({"kind": "independence", "what": "a call on an environment fails because another call on it is in progress", "call": "Ping"},
+                                       {"workload": w, "alone": a, "among_others": b, "all_workloads": x["workloads"]}, klass="ping")
             if pa != pb:
                 what = "verdict or exit value differs" if pa[:2] != pb[:2] else "descriptor table differs"
                 c.finding_or_violation({"kind": "independence", "what": what + " between the run alone and the run among 15 others", "runner": w["kind"]},
